@@ -9,6 +9,7 @@
     `From<LineString>` panic (Polyline::new asserts at least two points). *)
 From SF Require Import Model.Bytes Model.F64 Model.ShapeType Model.Shapes Model.Res Model.F64Arith Model.Construct Model.Geo.
 From SF Require Import Proofs.PolygonCtor Proofs.GeoProofs.
+From SF Require Import Proofs.GeoPolygonBack.
 Open Scope Z_scope.
 
 (** Points, multipoints and polylines (any dimension) become Point, MultiPoint
@@ -79,3 +80,47 @@ Example C20_example :
   coord_dim XYZM (mkpt 1 2 3 F_NO_DATA) = 3 /\
   from_geo (GLineString [(1, 2)]) = Panic.
 Proof. repeat split; vm_compute; reflexivity. Qed.
+
+(** ** Polygons there and back (Proofs/GeoPolygonBack.v) *)
+(** An outer-first 2-D polygon as the constructor leaves it — every ring
+    closed and oriented as its role says (C16), vertices without Z or M —
+    converted to geo-types and back is the same polygon, box included. *)
+Theorem C20_polygon_back : forall (rings0 : list (role * list pt)) (s : shape),
+  mk_polygon XY rings0 = Ok s ->
+  Forall (fun r => is_part_closed XY (snd r) = true /\ ring_role (snd r) = fst r) (rings_of s) ->
+  Forall (fun r => Forall clean2 (snd r)) (rings_of s) ->
+  match rings_of s with (Inner, _) :: _ => False | _ => True end ->
+  exists gs, to_geo s = Some (GMultiPolygon gs) /\ from_geo (GMultiPolygon gs) = Ok s.
+Proof. exact polygon_there_and_back. Qed.
+Print Assumptions C20_polygon_back.
+
+(** A geo-types multi-polygon whose rings are non-empty and closed (what
+    `geo_types::Polygon::new` guarantees unless a ring starts with a NaN),
+    converted to a shape and back: the same polygons in the same order, each with
+    the same rings in the same order and roles, every ring the same coordinate
+    sequence or its reversal ([ring_trip] names which). *)
+Theorem C20_multipolygon_from_geo : forall (ps : list gpoly) (s : shape),
+  Forall good_gpoly ps -> from_geo (GMultiPolygon ps) = Ok s ->
+  exists ps', to_geo s = Some (GMultiPolygon ps') /\
+    flat_polys ps' = map ring_trip (flat_polys ps) /\
+    Forall (fun a => fst (ring_trip a) = fst a /\ ring_sim (snd a) (snd (ring_trip a))) (flat_polys ps).
+Proof. exact multipolygon_there_and_back. Qed.
+Print Assumptions C20_multipolygon_from_geo.
+
+Theorem C20_polygon_from_geo : forall (p : gpoly) (s : shape),
+  good_gpoly p -> from_geo (GPolygon p) = Ok s ->
+  exists ps', to_geo s = Some (GMultiPolygon ps') /\
+    flat_polys ps' = map ring_trip1 (flat_poly p) /\
+    Forall (fun a => fst (ring_trip1 a) = fst a /\ ring_sim (snd a) (snd (ring_trip1 a))) (flat_poly p).
+Proof. exact polygon_from_geo_there_and_back. Qed.
+Print Assumptions C20_polygon_from_geo.
+
+(** The premises are satisfiable: the unit triangle with a hole-less exterior, there and back. *)
+Definition c20_tri : list Geo.coord := [(0, 0); (0, 4607182418800017408); (4607182418800017408, 0); (0, 0)].
+Example C20_polygon_example :
+  good_gpoly (gpoly_new c20_tri []) /\
+  (match from_geo (GMultiPolygon [gpoly_new c20_tri []]) with Ok s => to_geo s | _ => None end)
+  = Some (GMultiPolygon [gpoly_new c20_tri []]).
+Proof.
+  split; [split; [split; [vm_compute; discriminate|vm_compute; reflexivity]|constructor]|vm_compute; reflexivity].
+Qed.
